@@ -180,7 +180,7 @@ def body(chk):
              selftest=False, need_regions=('skipped-0', 'skipped-1', f'skipped-{K}'))
     lock_discipline(chk)
     from . import driver
-    run_lane(chk, driver.DriverStep, ('C05', 2, 1), bounds={'driver step': 'release sites: result delivery (receiver alive or gone), scrub, Abandon, search Done / dead item receiver; every other entry of the in-use set unchanged'}, selftest=False,
+    run_lane(chk, driver.DriverStep, (('C05', 2, 1) if quick else ('C05', 4, 3)), bounds={'driver step': 'release sites: result delivery (receiver alive or gone), scrub, Abandon, search Done / dead item receiver; every other entry of the in-use set unchanged'}, selftest=False,
              need_regions=('scrub', 'resp', 'op-abandon', 'op-search'))
     # concrete differential vectors
     cases = [{'cmd': 'msgid', 'last': l, 'inuse': u} for l, u in [(0, []), (5, [6, 7]), (MAX, [1, 2]), (MAX - 1, [MAX]), (MAX - 2, [MAX - 1, MAX, 1]), (7, [9])]]
